@@ -326,6 +326,8 @@ class Inliner:
                                             sub_.lineno, sub_.col_offset = st.lineno, st.col_offset
                                             sub_.end_lineno, sub_.end_col_offset = getattr(st, "end_lineno", st.lineno), getattr(st, "end_col_offset", st.col_offset)
                                 out.extend(blk)
+                                for b_ in blk:                    # a second instance of the helper gets fresh local names
+                                    caller_names.update(_names(b_))
                                 self.inlined.append((fn.name, hfn.name))
                                 did = True
                                 continue
